@@ -773,6 +773,21 @@ func (e *Engine) fmtArg(st *State, depth int, site ssa.Instruction, spec string,
 			}
 			return e.opaqueStr(fmt.Sprintf("fmt%s.%d", spec, v.id), 1, 20), st
 		}
+		if verb == 'x' || verb == 'X' {
+			// %x / %0Nx of a symbolic integer (non-negative values only are modelled exactly;
+			// a negative value is a separate branch with an opaque text)
+			minW, ok := hexSpecWidth(spec)
+			if ok {
+				h := fmtHex(v, minW, verb == 'X')
+				if signed {
+					neg := Slt(v, BV(0, v.w))
+					if neg != FF {
+						h = strIte(neg, e.opaqueStr(fmt.Sprintf("fmtneg%s.%d", spec, v.id), 2, 20), h)
+					}
+				}
+				return h, st
+			}
+		}
 	case FloatV:
 		return strConst(fmt.Sprintf(spec, float64(v))), st
 	case Ptr:
